@@ -1,26 +1,30 @@
 """C09 — the collector frees exactly the unreachable objects, exactly once
    (+ the collector-level half of C10: collection is unobservable, nothing is left behind).
 
-Proof:   coq/C09/Props_C09.v and coq/C09/Props_C10gc.v over the hand-written, phase-by-phase model
-         coq/C09/GcModel.v; the header bit layout coq/Gen/GcHeader.v is regenerated from gc_header.rs on
-         every run (tools/gen_c09.py) and coq/C09/HeaderRefine.v re-proves that the mark bit and the count are
-         independent components.
-Tie:     the extracted model (ocaml/C09, ExtrOcamlBasic only) and the real boa_gc (harness `gcops`) run the
-         same operation histories; every observation line is compared (Finalize / Drop logs in order, upgrade /
-         value / weak-map results, heap statistics incl. bytes and collection count).
-         Exhaustive bounded histories + seeded random histories (cycles, self references, ephemeron keys
-         reachable only from their own values, weak-map cycles, finalizers that clone handles).
-Search:  gen/c09_oracle.py replays the harness output alone against an abstract heap graph and checks the
-         property itself (never freed while reachable, unreachable => finalized and freed once, upgrade iff
-         live, no leak after dropping everything); also histories with collections inserted / under
-         boa_gc::verif::set_stress must give the same non-weak observations (C10, collector level).
+Proof:   coq/C09/Props_C09.v (12 theorems) and coq/C09/Props_C10gc.v (5 theorems) over the hand-written, phase-by-phase
+         model coq/C09/GcModel.v: representation invariant over all histories, is_rooted exact, marking = abstract
+         reachability, collect frees exactly the unreachable nodes once and re-establishes the invariant (when no
+         unreachable box has a resurrecting finalizer; refuted otherwise), reachable sub-heap preserved, drop-all empties.
+         The header bit layout coq/Gen/GcHeader.v is regenerated from gc_header.rs on every run (tools/gen_c09.py) and
+         coq/C09/HeaderRefine.v re-proves that the mark bit and the count are independent components.
+Tie:     the extracted model (ocaml/C09, ExtrOcamlBasic only, build output in ocaml/C09/_build/) and the real boa_gc
+         (harness `gcops`) run the same operation histories; every observation line is compared (Finalize / Drop logs in
+         order, upgrade / value / weak-map results, heap statistics incl. bytes and collection count, and the tear-down).
+         Exhaustive bounded histories + seeded random histories (cycles, self references, ephemeron keys reachable only
+         from their own values, ephemeron chains, weak-map cycles, finalizers that clone handles, malformed lines).
+Search:  gen/c09_oracle.py replays the harness output alone against an abstract heap graph and checks the property itself
+         (never freed while reachable, unreachable => finalized and freed once, upgrade iff live, no leak after dropping
+         everything, no panic); also histories with collections inserted / under boa_gc::verif::set_stress must give the
+         same non-weak observations (C10, collector level).
+Known:   class `finalizer-resurrection` (design.d/C09.md, finding 1): computed from the failing case = the failure happens
+         at or after a collection whose finalizers put handles into the root list.
 """
 import os
 import re
 import subprocess
 import sys
 import time
-from concurrent.futures import ThreadPoolExecutor
+from concurrent.futures import ProcessPoolExecutor, ThreadPoolExecutor
 
 import vlib
 from vlib import Run, log
@@ -139,10 +143,40 @@ class Mismatch:
 
 
 def model_blocks(model_out):
-    blocks = model_out.split(RESET_LINE + "\n")
-    if blocks and blocks[-1] == "":
-        blocks.pop()
+    """The model's output split per history: each block is the text of its observation lines including the final
+    `reset | ...` line (the model predicts the statistics after the harness's tear-down as well)."""
+    blocks, cur = [], []
+    for l in model_out.split("\n"):
+        if not l:
+            continue
+        cur.append(l)
+        if l.startswith("reset |"):
+            blocks.append("\n".join(cur) + "\n")
+            cur = []
+    if cur:
+        blocks.append("\n".join(cur) + "\n")
     return blocks
+
+
+def measure(out, stats):
+    """Measured features of the compared observation lines (what the collections in this batch actually did)."""
+    g = d = nd = us = un = inv = 0
+    for l in out.split("\n"):
+        if l.startswith("fin ["):
+            g += 1
+            k = l.index(" drop [") + 7
+            body = l[k:l.index("]", k)]
+            if body:
+                d += 1
+                nd += body.count(",") + 1
+        elif l.startswith("some "):
+            us += 1
+        elif l.startswith("none") or l.startswith("cleared"):
+            un += 1
+        elif l.startswith("inv"):
+            inv += 1
+    for k, v in (("collections", g), ("collections_freeing", d), ("nodes_freed", nd), ("weak_some", us), ("weak_none", un), ("rejected_ops", inv)):
+        stats[k] = stats.get(k, 0) + v
 
 
 def compare_batch(gcops, hists, mblocks, stats, oracle=True, max_poison=None, rng=None):
@@ -160,9 +194,10 @@ def compare_batch(gcops, hists, mblocks, stats, oracle=True, max_poison=None, rn
         idxs = clean_idx[pos:]
         text = "".join("\n".join(hists[i]) + "\nreset\n" for i in idxs)
         out, rc = impl_run(gcops, text)
-        want = "".join(mblocks[i] + RESET_LINE + "\n" for i in idxs)
+        want = "".join(mblocks[i] for i in idxs)
         if out == want:
             stats["ops"] = stats.get("ops", 0) + sum(len(hists[i]) + 1 for i in idxs)
+            measure(out, stats)
             if oracle:
                 lines = out.split("\n")
                 k = 0
@@ -181,7 +216,7 @@ def compare_batch(gcops, hists, mblocks, stats, oracle=True, max_poison=None, rn
         advanced = False
         for j, i in enumerate(idxs):
             n = len(hists[i]) + 1
-            mlines = (mblocks[i] + RESET_LINE).split("\n")
+            mlines = mblocks[i].split("\n")[:-1]
             got = olines[k:k + n]
             if got != mlines:
                 d = 0
@@ -212,9 +247,9 @@ def compare_batch(gcops, hists, mblocks, stats, oracle=True, max_poison=None, rn
     stats["poisoned_run"] = stats.get("poisoned_run", 0) + len(poison_idx)
 
     def one(i):
-        ml = mblocks[i].split("\n")
+        ml = mblocks[i].split("\n")[:-1]
         cut = next(k for k, l in enumerate(ml) if l.endswith(" POISON"))
-        ops = hists[i][:cut + 1]
+        ops = (hists[i] + ["reset"])[:cut + 1]
         out, rc = impl_run(gcops, "\n".join(ops) + "\nquit\n")
         return i, cut, ml, ops, out.split("\n")[:-1], rc
     with ThreadPoolExecutor(max_workers=max(2, vlib.NCPU // 2)) as ex:
@@ -245,12 +280,53 @@ def compare_batch(gcops, hists, mblocks, stats, oracle=True, max_poison=None, rn
     return mism, viol
 
 
-def classify(ops, v):
-    """Stable class label of a property violation, computed from the failing case itself."""
-    kind = v[1]
-    res_fin = any(re.match(r"(new|newc) [1-9]", o) for o in ops)
-    if kind in ("freed-while-held", "freed-while-reachable", "impl-panic", "impl-uaf", "load-of-dropped", "read-of-dropped") and res_fin:
-        return "finalizer-resurrection-" + ("panic" if kind == "impl-panic" else "freed-while-held")
+KNOWN_CLASS = "finalizer-resurrection"
+
+
+def resurrecting_nodes(ops):
+    """ids of the nodes allocated with a resurrecting finalizer (F > 0), from the operation list alone."""
+    out, n = set(), 0
+    for o in ops:
+        w = o.split()
+        if not w:
+            continue
+        if w[0] in ("new", "newc"):
+            if len(w) > 1 and w[1].isdigit() and int(w[1]) > 0:
+                out.add(n)
+            n += 1
+        elif w[0] == "wmnew":
+            n += 1
+    return out
+
+
+def taint_index(ops, lines):
+    """Index of the first collection in which a finalizer put handles into the root list (`res [..]` non-empty), or
+    which panicked after running the finalizer of a node allocated with F > 0; None if there is none.  From that
+    collection on boa's reference counts no longer match its handles (design.d/C09.md, finding 1)."""
+    rn = None
+    for i, (o, l) in enumerate(zip(ops, lines)):
+        if o.split()[:1] != ["gc"]:
+            continue
+        res = l.split(" | ")[0]
+        m = re.search(r" res \[([0-9,]+)\]", res)
+        if m:
+            return i
+        if res.startswith("panic"):
+            if rn is None:
+                rn = resurrecting_nodes(ops)
+            m = re.search(r"fin \[([0-9,]*)\]", res)
+            fins = [int(x) for x in m.group(1).split(",")] if m and m.group(1) else []
+            if any(f in rn for f in fins):
+                return i
+    return None
+
+
+def classify(ops, at, lines):
+    """Stable class label of a failing case, computed from the case itself: the failure happens at or after a
+    collection whose finalizers resurrected something."""
+    t = taint_index(ops, lines)
+    if t is not None and t <= at:
+        return KNOWN_CLASS
     return None
 
 
@@ -291,11 +367,12 @@ def fails_correspondence(gcops, driver, sizes):
     return f
 
 
-def fails_oracle(gcops, kind):
+def fails_oracle(gcops, kind, cls):
     def f(ops):
         out, rc = impl_run(gcops, "\n".join(ops) + "\nreset\nquit\n")
-        v = c09_oracle.check_history(ops, out.split("\n")[:-1])
-        return bool(v) and v[1] == kind
+        lines = out.split("\n")[:-1]
+        v = c09_oracle.check_history(ops, lines)
+        return bool(v) and v[1] == kind and classify(ops, v[0], lines) == cls
     return f
 
 
@@ -365,14 +442,49 @@ def schedule_check(run, gcops, hists, stats):
     return bad
 
 
+def random_job(job):
+    """One batch of seeded random histories (generated by the driver from the model state), in its own process."""
+    prof, count, nops, maxbox, seed, driver, gcops, sizes = job
+    rc, text, err = sh([driver, "gen", str(seed), str(count), str(nops), str(maxbox), prof])
+    hists = split_histories(text)
+    mb = model_blocks(model_run(driver, sizes, text))
+    st = {}
+    import random as _r
+    mism, viol = compare_batch(gcops, hists, mb, st, oracle=True, max_poison=None, rng=_r.Random(seed))
+    return hists, mism, viol, st, job[:5]
+
+
+def enum_shard(job):
+    """One shard of the bounded enumeration, in its own process: enumerate, run the model, run the implementation,
+    compare every line, run the property oracle.  Returns (mismatches, violations, stats, enumerator summary, #histories)."""
+    mode, depth, fins, i, shards, seed, driver, gcops, sizes, max_poison = job
+    if mode == "enum":
+        cmd = [driver, "enum", "3", "2", str(depth), "0", fins, "2", str(i), str(shards)]
+    else:
+        cmd = [driver, "enumg", "3", "2", str(depth), fins, "2", str(i), str(shards)]
+    rc, text, err = sh(cmd)
+    if not text.strip():
+        return [], [], {}, err, 0
+    hists = split_histories(text)
+    mb = model_blocks(model_run(driver, sizes, text))
+    if len(mb) != len(hists):
+        raise RuntimeError("model answered %d histories of %d" % (len(mb), len(hists)))
+    st = {}
+    import random as _r
+    mism, viol = compare_batch(gcops, hists, mb, st, oracle=True, max_poison=max_poison, rng=_r.Random(seed))
+    st["nontrivial"] = sum(1 for h in hists if "gc" in h)
+    return mism[:20], viol[:200], st, err, len(hists)
+
+
 # ----------------------------------------------------------------------------------------------
 
-def main():
+def _main():
     run = Run(PROP, "proof")
     os.makedirs(WORKDIR, exist_ok=True)
     run.cov["rule"] = ("a case is one operation history run on the extracted model and on the real boa_gc, all observation lines compared; "
-                       "exhaustive part: every history over <=3 strong boxes / <=2 ephemeron boxes (quick: all sequences of <=5 valid operations; "
-                       "thorough: <=7 operations, a branch pruned when the same model state was already expanded with at least the remaining depth); "
+                       "exhaustive part: every history over <=3 strong boxes / <=2 ephemeron boxes (quick: all sequences of <=5 valid operations, finalizer kinds {0,1}; "
+                       "thorough: <=7 operations with plain finalizers and <=6 operations with finalizer kinds {0,1}, a branch pruned when the same model "
+                       "state was already expanded with at least the remaining depth); "
                        "random part: seeded histories (valid operations chosen from the model state + 2% malformed lines + macro shapes); "
                        "distinct = distinct operation sequences; non-trivial = contains at least one collection with a non-empty heap")
     broken = None
@@ -442,48 +554,40 @@ def main():
                 all_mism += mism
                 all_viol += viol
     # 4b exhaustive
-    depth, memo = (5, "0") if run.quick else (7, "1")
-    shards = 16 if run.quick else 64
-    ex_hist = 0
-
-    def do_shard(i):
-        rc, text, err = sh([driver, "enum", "3", "2", str(depth), memo, "0,1", "2", str(i), str(shards)])
-        return text, err
-    with ThreadPoolExecutor(max_workers=vlib.NCPU) as ex:
-        results = list(ex.map(do_shard, range(shards)))
+    #   quick:    every sequence of <= 5 valid operations (no pruning), finalizer kinds {0,1}
+    #   thorough: memoised on the model state (a branch is pruned when the same state was already expanded with at
+    #             least the remaining depth; every explored transition still occurs in some history):
+    #             <= 7 operations with plain finalizers, <= 6 operations with finalizer kinds {0,1}
+    if run.quick:
+        enum_plans = [("enum", 5, "0,1", 16)]
+    else:
+        enum_plans = [("enumg", 7, "0", 2 * vlib.NCPU), ("enumg", 6, "0,1", 2 * vlib.NCPU)]
+    enum_jobs = []
+    for mode, depth, fins, shards in enum_plans:
+        for i in range(shards):
+            enum_jobs.append((mode, depth, fins, i, shards, run.rng.getrandbits(30), driver, gcops, sizes, 40 if run.quick else 150))
     enum_info = []
-
-    def do_compare(te):
-        text, err = te
-        if not text.strip():
-            return [], [], 0, err
-        hists = split_histories(text)
-        mb = model_blocks(model_run(driver, sizes, text))
-        st = {}
-        mism, viol = compare_batch(gcops, hists, mb, st, oracle=True, max_poison=(40 if run.quick else 150), rng=run.rng)
-        return mism, viol, st, err
-    with ThreadPoolExecutor(max_workers=vlib.NCPU) as ex:
-        for (mism, viol, st, err), (text, _) in zip(ex.map(do_compare, results), results):
+    ex_hist = 0
+    with ProcessPoolExecutor(max_workers=vlib.NCPU) as ex:
+        for (mism, viol, st, err, n), job in zip(ex.map(enum_shard, enum_jobs), enum_jobs):
             all_mism += mism
             all_viol += viol
             enum_info.append(err.strip())
-            if st:
-                for k, v in st.items():
-                    if isinstance(v, int):
-                        stats["exhaustive_" + k] = stats.get("exhaustive_" + k, 0) + v
-                    else:
-                        stats.setdefault("exhaustive_" + k, v)
-                n = st.get("histories", 0)
-                ex_hist += n
-                run.cov["evaluations"] += n
-                run._distinct.update(("ex", depth, len(enum_info), j) for j in range(n))
-    stats["exhaustive_depth"] = depth
-    stats["exhaustive_memo"] = memo == "1"
-    stats["exhaustive_enum"] = enum_info[:4]
+            for k, v in st.items():
+                if isinstance(v, int):
+                    stats["exhaustive_" + k] = stats.get("exhaustive_" + k, 0) + v
+                else:
+                    stats.setdefault("exhaustive_" + k, v)
+            ex_hist += n
+            run.cov["evaluations"] += n
+            # the enumerated histories are pairwise distinct by construction; non-trivial = contains a collection
+            run._distinct.update(("ex", job[0], job[1], job[2], job[3], j) for j in range(st.get("nontrivial", 0)))
+    stats["exhaustive_plans"] = [{"mode": m, "depth": d, "finalizer_kinds": f, "shards": sh} for m, d, f, sh in enum_plans]
+    stats["exhaustive_enum"] = enum_info[:2] + enum_info[-2:]
     stats["exhaustive_wall_s"] = round(time.time() - t0, 1)
     # 4c random
     t1 = time.time()
-    plans = ([("nores", 60, 400, 24), ("res", 40, 300, 16), ("nores", 6, 5000, 200)] if run.quick else
+    plans = ([("nores", 64, 400, 24), ("res", 16, 300, 16), ("nores", 8, 5000, 200)] if run.quick else
              [("nores", 600, 600, 30), ("res", 300, 400, 20), ("nores", 40, 5000, 200), ("nores", 200, 1500, 80), ("res", 100, 1500, 60)])
     rand_hists = []
     gen_jobs = []
@@ -492,17 +596,9 @@ def main():
         for j in range(0, count, per):
             gen_jobs.append((prof, min(per, count - j), nops, maxbox, run.rng.getrandbits(30)))
 
-    def do_random(job):
-        prof, count, nops, maxbox, seed = job
-        rc, text, err = sh([driver, "gen", str(seed), str(count), str(nops), str(maxbox), prof])
-        hists = split_histories(text)
-        mb = model_blocks(model_run(driver, sizes, text))
-        st = {}
-        mism, viol = compare_batch(gcops, hists, mb, st, oracle=True, max_poison=None, rng=run.rng)
-        return hists, mism, viol, st, job
     dist = {}
-    with ThreadPoolExecutor(max_workers=vlib.NCPU) as ex:
-        for hists, mism, viol, st, job in ex.map(do_random, gen_jobs):
+    with ProcessPoolExecutor(max_workers=vlib.NCPU) as ex:
+        for hists, mism, viol, st, job in ex.map(random_job, [j + (driver, gcops, sizes) for j in gen_jobs]):
             all_mism += mism
             all_viol += viol
             rand_hists += hists
@@ -527,41 +623,68 @@ def main():
     run.cov["programs"] = 0
     # verdicts
     reported = set()
+    stats["violating_histories"] = len(all_viol)
+    stats["violating_histories_known_class"] = 0
     for ops, v, got in all_viol:
-        cls = classify(ops, v)
-        key = (cls, v[1])
+        cls = classify(ops, v[0], got)
+        if cls:
+            stats["violating_histories_known_class"] += 1
+        key = cls if cls else (None, v[1])
         if key in reported:
             continue
         reported.add(key)
-        small = shrink(ops[: v[0] + 1], fails_oracle(gcops, v[1]))
-        save_corpus(small, "oracle-" + v[1])
+        small = shrink(ops[: v[0] + 1], fails_oracle(gcops, v[1], cls))
+        if cls != KNOWN_CLASS:       # the witness of the known class is already in the corpus
+            save_corpus(small, "oracle-" + v[1])
+        io = impl_run(gcops, "\n".join(small) + "\nreset\nquit\n")[0].split("\n")[:-1]
         run.violation({"kind": "counterexample", "class": cls, "oracle": v[1], "detail": v[2], "ops": small, "original_length": len(ops),
-                       "impl_output": impl_run(gcops, "\n".join(small) + "\nquit\n")[0].split("\n")[:-1],
-                       "how_to_rerun": "printf '%s\\n' | harness/target/debug/gcops" % "\\n".join(small)})
+                       "impl_output": io,
+                       "how_to_rerun": "printf '%s\\nreset\\n' | harness/target/debug/gcops" % "\\n".join(small)})
     for sb in sched_bad[:3]:
         run.violation({"kind": "counterexample", "class": None, "oracle": "schedule-independence", "detail": sb,
                        "ops": sb["ops"], "how_to_rerun": "./check replay <this file>"})
     seen_m = 0
+    stats["mismatching_histories"] = len(all_mism)
     for m in all_mism:
-        if seen_m >= 3:
-            break
+        ops = m.ops[: m.index + 1]
+        lines = impl_run(gcops, "\n".join(ops) + "\nquit\n")[0].split("\n")[:-1]
+        cls = classify(ops, m.index, lines)
+        key = cls if cls else (None, "corr", seen_m)
+        if key in reported or seen_m >= 3:
+            continue
+        reported.add(key)
         seen_m += 1
-        small = shrink(m.ops[: m.index + 1], fails_correspondence(gcops, driver, sizes))
+        fc = fails_correspondence(gcops, driver, sizes)
+
+        def still(c, cls=cls, fc=fc):
+            if not fc(c):
+                return False
+            ls = impl_run(gcops, "\n".join(c) + "\nquit\n")[0].split("\n")[:-1]
+            return classify(c, len(c) - 1, ls) == cls
+        small = shrink(ops, still)
         save_corpus(small, "corr")
         mb = model_blocks(model_run(driver, sizes, "\n".join(small) + "\nreset\n"))
         io, _ = impl_run(gcops, "\n".join(small) + "\nquit\n")
-        found = bool(all_viol)
-        run.violation({"kind": "correspondence-broken", "obligation": "coq/C09/GcModel.v (extracted) vs boa_gc through harness gcops",
+        run.violation({"kind": "correspondence-broken", "class": cls,
+                       "obligation": "coq/C09/GcModel.v (extracted) vs boa_gc through harness gcops",
                        "ops": small, "model_output": mb[0].split("\n") if mb else [], "impl_output": io.split("\n")[:-1],
-                       "first_difference": m.obj(), "how_to_rerun": "./check replay <this file>"}, found_input=found or True)
+                       "first_difference": m.obj(), "how_to_rerun": "./check replay <this file>"}, found_input=True)
     if broken is not None and not all_viol and not all_mism and not sched_bad:
         run.violation({"kind": "proof-broken", "obligation": "coq/C09/Props_C09.v / Props_C10gc.v", "detail": broken,
-                       "search": "exhaustive depth %d + %d random histories + schedule runs found no failing input" % (depth, len(rand_hists))},
+                       "search": "exhaustive %r + %d random histories + schedule runs found no failing input" % (enum_plans, len(rand_hists))},
                       found_input=False)
     elif broken is not None:
         run.notes.append({"proof_broken": broken})
     run.assumptions = TRUSTED
     return run.finish()
+
+
+def main():
+    try:
+        return _main()
+    except (subprocess.TimeoutExpired, OSError, RuntimeError) as e:
+        # a tool timed out / crashed (machine overload, missing binary): infrastructure, not a verdict
+        vlib.infra_error(PROP, "%s: %s" % (type(e).__name__, str(e)[:300]))
 
 
 def save_corpus(ops, tag):
@@ -576,17 +699,30 @@ def save_corpus(ops, tag):
 
 
 def replay(obj):
+    """Re-run the operation history of a replay file on the implementation (and on the model): prints both outputs,
+    the oracle's verdict and the class; exit code 1 if the failure reproduces."""
     ok, paths, _ = vlib.harness_build(["gcops"])
     driver, _ = build_driver()
     ops = obj.get("ops", [])
     sizes = calibrate(paths["gcops"])
-    text = "\n".join(ops) + "\n"
+    text = "\n".join(ops) + "\nreset\n"
     out, rc = impl_run(paths["gcops"], text + "quit\n")
-    print("implementation:")
+    lines = out.split("\n")[:-1]
+    print("implementation (exit %d):" % rc)
     print(out)
+    bad = False
     if driver:
+        mb = model_blocks(model_run(driver, sizes, text))
         print("model:")
-        print(model_run(driver, sizes, text))
-    v = c09_oracle.check_history(ops, out.split("\n")[:-1])
+        print(mb[0] if mb else "<none>")
+        st = {}
+        mism, _ = compare_batch(paths["gcops"], [ops], mb, st, oracle=False)
+        if mism:
+            print("model/implementation mismatch:", mism[0].obj())
+            bad = True
+    v = c09_oracle.check_history(ops, lines)
     print("oracle:", v)
-    return 0
+    if v:
+        print("class:", classify(ops, v[0], lines))
+        bad = True
+    return 1 if bad else 0
